@@ -31,7 +31,16 @@ def sig(fl):
     if isinstance(exp, dict) and isinstance(exp.get("clauses"), dict):
         bad = [c for c in ORDER if exp["clauses"].get(c) is False]
         if bad:
-            return "op=round clause=%s kind=%s" % (bad[0], CLAUSES[bad[0]])
+            how = ""
+            if bad[0] == "H":
+                # a quota write (pod or container level) that the executor's write cache suppressed although the file holds
+                # another value (someone else - kubelet's in-place resize - wrote the file since the cached write)
+                fq = (e.get("obs") or {}).get("fq", {})
+                for w in e.get("ws", []):
+                    if w.get("kind") == "q" and not w.get("eff") and fq.get(w.get("p"), {}).get(w.get("k")) != w.get("v"):
+                        how = " how=write-suppressed-by-stale-executor-cache"
+                        break
+            return "op=round clause=%s kind=%s%s" % (bad[0], CLAUSES[bad[0]], how)
         return "op=round clause=state kind=burst-budget-or-token-bounds"
     if fl.get("violated"):
         return "op=round clause=%s" % fl["violated"]
